@@ -1055,3 +1055,77 @@ example : migrate graph current (graph.length + 1) (.int 22) = .errUpdate := by 
 example : migrate graph current (graph.length + 1) (.tup 9 9) = .errUnknown := by decide +kernel
 
 end MitmVerif.Props.C38
+
+/-! ### round 6 cross-audit: non-vacuity witnesses (appended by the auditor b-c25; see notes/audit6/C38.md) -/
+namespace MitmVerif.Props.C38
+open MitmVerif MitmVerif.C36 MitmVerif.C38Conv MitmVerif.C38 MitmVerif.Gen.C38
+
+-- W1: 4→5 — two records of the same client connection: both convert, the second gets the id recorded for the first
+def w45 : Dict :=
+  [(.str (s "version"), .list [.int 3, .int 0, .int 0]),
+   (.str (s "client_conn"), .dict [(.str (s "timestamp_start"), .int 1), (.str (s "address"), .list [.str (s "h"), .int 80])]),
+   (.str (s "server_conn"), .dict [(.str (s "timestamp_start"), .int 2), (.str (s "source_address"), .list [.str (s "x"), .int 1]),
+                                   (.str (s "via"), .null)])]
+def ids0 : Ids := { client := [], server := [], drawn := 0 }
+example :
+    (match runIds (fun n => .int n) ids0 [w45, w45] with
+     | some (g, [a, b]) =>
+       decide (g.drawn = 4) && decide (g.client.length = 1) &&
+       (((dget a (s "client_conn")).bind asDict).bind (fun c => dget c (s "id"))).map enc ==
+         (((dget b (s "client_conn")).bind asDict).bind (fun c => dget c (s "id"))).map enc &&
+       ((((dget a (s "client_conn")).bind asDict).bind (fun c => dget c (s "id"))).map enc == some (enc (.int 0)))
+     | _ => false) = true := by decide +kernel
+
+-- W2: 5→6→7→8 on one record (tls renames incl. the strict pops, tls_extensions, trailers)
+example :
+    let conn : Value := .dict [(.str (s "ssl_established"), .bool true), (.str (s "timestamp_ssl_setup"), .int 3), (.str (s "via"), .null)]
+    let d : Dict := [(.str (s "version"), .int 5), (.str (s "request"), .dict [(.str (s "path"), .bytes (s "/"))]),
+                     (.str (s "response"), .null), (.str (s "client_conn"), conn), (.str (s "server_conn"), conn)]
+    ((((conv_5_6 d).bind conv_6_7).bind conv_7_8).bind (fun d' => (dget d' (s "request")).bind asDict)).map (fun r => (dget r (s "trailers")).map enc == some (enc .null))
+      = some true := by decide +kernel
+
+-- W3: the whole modelled chain 12 → 21 succeeds on a record with both connections, keeps the request, arrives at 21
+def w12 : Dict :=
+  let cc : Value := .dict [(.str (s "address"), .list [.str (s "c"), .int 1]), (.str (s "timestamp_start"), .int 5),
+    (.str (s "tls_extensions"), .null), (.str (s "tls_established"), .bool false), (.str (s "state"), .int 0), (.str (s "tls_version"), .null)]
+  let sc : Value := .dict [(.str (s "address"), .list [.str (s "example.com"), .int 443]), (.str (s "sni"), .bool true),
+    (.str (s "tls_established"), .bool true), (.str (s "cipher_name"), .str (s "X")), (.str (s "state"), .int 0), (.str (s "tls_version"), .str (s "QUIC"))]
+  [(.str (s "version"), .int 12), (.str (s "marked"), .bool true),
+   (.str (s "request"), .dict [(.str (s "path"), .bytes (s "/x")), (.str (s "timestamp_start"), .int 5)]),
+   (.str (s "response"), .null), (.str (s "websocket"), .null), (.str (s "mode"), .str (s "regular")),
+   (.str (s "client_conn"), cc), (.str (s "server_conn"), sc)]
+example : ((chain12_21 w12).map (fun d' => ((dget d' (s "version")).map enc == some (enc (.int 21))) && ((dget d' (s "request")).map enc == (dget w12 (s "request")).map enc) &&
+    ((dget d' (s "marked")).map enc == some (enc (.str (s ":default:")))) && ((dget d' (s "mode")).map enc == none))) = some true := by decide +kernel
+
+-- W4: the composed migrate_flow takes that record from 12 to the current version in nine turns; one turn from 19
+example : ((migrateFlow (fun n => .int n) (fun _ => none) 21 64 { ws := [], ids := ids0 } none w12).map (fun r => versionKey r.2)) =
+    some (some (.int 21)) := by decide +kernel
+example : (match convAny (fun n => .int n) (fun _ => none) { ws := [], ids := ids0 } (.int 12) w12 with
+    | some (some (_, d')) => (dget d' (s "version")).map enc == some (enc (.int 13)) && ((dget d' (s "request")).map enc == (dget w12 (s "request")).map enc)
+    | _ => false) = true := by decide +kernel
+-- … and fuel 9 is one turn short of what this record needs: `none` here is fuel, not an exception (see NEEDS OWNER)
+example : (migrateFlow (fun n => .int n) (fun _ => none) 21 9 { ws := [], ids := ids0 } none w12).isNone = true ∧
+    (migrateFlow (fun n => .int n) (fun _ => none) 21 10 { ws := [], ids := ids0 } none w12).isSome = true := by decide +kernel
+
+-- W5: `stored_until_consumed` / `table_frame_11_12`: a run of records through 11→12 (`runTbl`) that all convert — a handshake
+-- flow H is stored, an unrelated plain record leaves it on record, the old websocket flow consumes it
+example :
+    let conn : Value := .dict [(.str (s "timestamp_end"), .int 9)]
+    let hs : Dict := [(.str (s "version"), .int 11), (.str (s "id"), .str (s "H")), (.str (s "metadata"), .dict [(.str (s "websocket"), .bool true)]),
+                      (.str (s "server_conn"), conn)]
+    let plain : Dict := [(.str (s "version"), .int 11), (.str (s "id"), .str (s "P")), (.str (s "metadata"), .dict [])]
+    let ws : Dict := [(.str (s "version"), .int 11), (.str (s "id"), .str (s "W")),
+                      (.str (s "metadata"), .dict [(.str (s "websocket_handshake"), .str (s "H"))]),
+                      (.str (s "messages"), .list []), (.str (s "close_sender"), .str (s "client")), (.str (s "close_code"), .int 1000),
+                      (.str (s "close_reason"), .str []), (.str (s "client_conn"), conn), (.str (s "server_conn"), conn),
+                      (.str (s "error"), .null), (.str (s "intercepted"), .bool false), (.str (s "is_replay"), .null), (.str (s "marked"), .bool false)]
+    ((runTbl [] [hs, plain]).map (fun g => (tget g (enc (.str (s "H")))).isSome)) = some true ∧
+    ((runTbl [] [hs, plain, ws]).map (fun g => (tget g (enc (.str (s "H")))).isSome)) = some false := by decide +kernel
+
+-- W6: the composed loop answers an unknown future version, a missing version and a raising converter with the same `none`
+example :
+    (migrateFlow (fun n => .int n) (fun _ => none) 21 64 { ws := [], ids := ids0 } none [(.str (s "version"), .int 22)]).isNone = true ∧
+    (migrateFlow (fun n => .int n) (fun _ => none) 21 64 { ws := [], ids := ids0 } none [(.str (s "version"), .int 12)]).isNone = true := by
+  decide +kernel
+
+end MitmVerif.Props.C38
